@@ -39,7 +39,12 @@ json.dump(out, sys.stdout)
 '''
 
 
+PRELUDE_OF = {}      # expression -> prelude it was evaluated under (so that a replay file is self-contained)
+
+
 def run_real(jobs, prelude='', root=None, timeout=600):
+    for j in jobs:
+        PRELUDE_OF[j.get('expr')] = (prelude, j.get('setup', ''))
     env = dict(os.environ)
     env['PI2_ROOT'] = root or os.environ.get('PI2_ROOT', '/repo')
     env.pop('PYTHONPATH', None)
